@@ -69,3 +69,31 @@ Proof.
   unfold refresh1, make_query. rewrite Hs. cbn [Z.eqb bind extract_serial tIXFR tAXFR Pos.eqb negb].
   unfold pick. rewrite Hrow, Hrow0, Hrun. reflexivity.
 Qed.
+
+(* dns.query.inbound_xfr with udp_mode TRY_FIRST: the server answers the UDP query with its bare SOA
+   ("retry over TCP"), then sends the valid incremental response over TCP: the zone converges.
+   With udp_mode ONLY the UseTCP error is reported and the zone is untouched. *)
+Theorem try_first_falls_back : forall v0 chain z tbu tbt wu recs ws,
+  chain_ok v0 chain -> zeq z (zone_of v0) ->
+  find_row tbu (Some (v_serial v0)) = Some [wu] ->
+  header_ok tIXFR wu -> w_records wu = [soa_rr (last chain v0)] ->
+  find_row tbt (Some (v_serial v0)) = Some ws ->
+  ixfr_response v0 chain recs -> chunking tIXFR recs ws ->
+  (exists z', xfr_top z 1 tbu tbt = Ok (0, z') /\ zeq z' (zone_of (last chain v0)))
+  /\ xfr_top z 2 tbu tbt = Ok (eUseTCP, z).
+Proof.
+  intros v0 chain z tbu tbt wu recs ws Hok Hz Hu Hwu Hru Ht Hresp Hch.
+  pose proof Hok as (_ & _ & _ & Hser & Hlt).
+  assert (UDP : inbound_xfr z tIXFR (Some (v_serial v0)) true [wu] = (Error eUseTCP z, 0%nat)).
+  { apply (use_tcp_signalled z (v_serial v0) wu [] (soa_rr (last chain v0)) Hwu Hru); [split; reflexivity| |].
+    - change (r_data (soa_rr (last chain v0)) mod two32) with (v_serial (last chain v0)).
+      intros E. apply (Hser v0 (or_introl eq_refl)). symmetry. exact E.
+    - exact Hlt. }
+  destruct (ixfr_converges_any_order v0 chain z recs ws Hok Hz Hresp Hch) as [z' [n [Hrun Hz']]].
+  split.
+  - exists z'. split; [|exact Hz'].
+    unfold xfr_top, make_query. rewrite (zone_serial_zeq z v0 Hz). cbn [Z.eqb bind tIXFR Pos.eqb negb andb].
+    unfold pick. rewrite Hu, UDP. cbn [Z.eqb eUseTCP Pos.eqb]. rewrite Ht, Hrun. reflexivity.
+  - unfold xfr_top, make_query. rewrite (zone_serial_zeq z v0 Hz). cbn [Z.eqb bind tIXFR Pos.eqb negb andb].
+    unfold pick. rewrite Hu, UDP. reflexivity.
+Qed.
